@@ -311,3 +311,42 @@ def check(prog, rep, tier):
         else:
             rep.bad('R16.c', key, file=f.file, line=f.node.lineno, func=f.qualname,
                     found=why or 'no success path', key=key)
+
+    # what api.utils.send_update hands to protocol.send_update is the request: all three sections, unchanged,
+    # on every path
+    from .. import codec
+    from ..values import Opaque, Obj
+    fsu = u.functions.get('send_update')
+    names = [p_ for p_ in fsu.params]
+    try:
+        _f, outs = codec.run(prog, fsu.qualname, [Opaque(n_) for n_ in names], {}, may_raise=False)
+    except AnalysisError as e:
+        rep.undecided('R16.c', 'utils.send_update:arguments', file=fsu.file, line=fsu.node.lineno, found=str(e))
+        outs = []
+    bad = None
+    nsend = 0
+    for k, v, st in outs:
+        for a in st.actions:
+            if a.kind == 'call' and a.meth == 'send_update':
+                nsend += 1
+                arg = a.args[0] if a.args else None
+                items = st.heap[arg.oid].items if isinstance(arg, Obj) and arg.oid in st.heap and \
+                    st.heap[arg.oid].kind == 'dict' else None
+                guards = ' & '.join(('%s' if b else 'not %s') % t for t, b, l, q in st.path[-3:])
+                if items is None:
+                    bad = bad or 'protocol.send_update receives %s' % (arg.desc() if arg is not None else None)
+                    continue
+                for sec in ('attr', 'nlri', 'withdraw'):
+                    got = items.get(sec)
+                    if got is None or got.desc() != sec:
+                        bad = bad or 'on the path %s the message handed to protocol.send_update has %s = %s: that ' \
+                                     'part of the request is not sent although success is reported' % (
+                                         guards or '(unconditional)', sec, got.desc() if got is not None else 'missing')
+    key = 'utils.send_update:arguments'
+    if bad:
+        rep.bad('R16.c', key, file=fsu.file, line=fsu.node.lineno, func=fsu.qualname, found=bad,
+                expected="{'attr': attr, 'nlri': nlri, 'withdraw': withdraw} on every path", key=key)
+    elif nsend:
+        rep.ok('R16.c', key, file=fsu.file, line=fsu.node.lineno, found='%d send(s) on %d path(s)' % (nsend, len(outs)))
+    elif outs:
+        rep.undecided('R16.c', key, file=fsu.file, line=fsu.node.lineno, found='no send_update call seen')
